@@ -204,6 +204,12 @@ static std::string check_ct(const KV &c) {
             Out o(outlen * 3), o2(20);
             rc = ascon_random_init(&st);
             ascon_random_fetch(&st, o.nn(), o.n);
+            if (pos & 4) {
+                // a public schedule of requests that crosses the 16384-byte re-seed limit: where the forced re-seed happens
+                // is a function of the request sizes alone
+                Out big(512);
+                for (int i = 0; i < 36; ++i) ascon_random_fetch(&st, big.p, 512);
+            }
             ascon_random_feed(&st, m.p, m.n);
             ascon_random_reseed(&st);
             ascon_random_fetch(&st, o2.p, 20);
